@@ -208,6 +208,36 @@ func c11(w *core.World, r *core.Report) {
 		r.Check(ok, "KEY-ORDER", core.Site(f, "sorts key names before positional use"), w.Pos(f.Pos()), t.Why+": "+detail)
 	}
 
+	// ---- KEY-VALUE-VERBATIM
+	r.Rule("KEY-VALUE-VERBATIM", 1, "utils.StripPathElemPrefixPath is applied to the paths of device notifications (ConvertNotificationTypedValues): it may drop the module prefix of element and key NAMES, but the key VALUES are instance data and must be stored as they are: no value written back into PathElem.Key is cut out of / re-joined from the old value. Cutting at ':' turns 2001:db8::1/64 and 2002:db8::1/64 into the same key (two list entries collide in the running store).")
+	if f := w.Func("pkg/utils", "", "StripPathElemPrefixPath"); f != nil {
+		n := 0
+		for _, b := range core.Blocks(f) {
+			for _, in := range b.Instrs {
+				mu, ok := in.(*ssa.MapUpdate)
+				if !ok || !strings.HasSuffix(core.FieldOf(mu.Map), "sdcpb.PathElem.Key") {
+					continue
+				}
+				n++
+				rewritten := false
+				for _, o := range append(core.Origins(mu.Value), mu.Value) {
+					switch x := o.(type) {
+					case *ssa.Slice:
+						rewritten = true
+					case *ssa.Call:
+						if core.CalleeIs(x, "strings.Join", "strings.TrimPrefix", "strings.Replace", "strings.ReplaceAll") {
+							rewritten = true
+						}
+					}
+				}
+				r.Check(!rewritten, "KEY-VALUE-VERBATIM", core.Site(f, "key value written back unchanged"), w.InstrPos(mu), "the key value of a data path is rewritten (everything up to a ':' is cut off per '/'-separated part): values that contain ':' (IPv6 addresses and prefixes, MAC addresses, time stamps) are mangled and different instances collide")
+			}
+		}
+		if n == 0 {
+			r.OK("KEY-VALUE-VERBATIM", core.Site(f, "key value written back unchanged"), w.Pos(f.Pos()), "key values are not written at all")
+		}
+	}
+
 	// ---- PATH-FRESH
 	r.Rule("PATH-FRESH", 1, "sharedEntryAttributes.SdcpbPathInternal builds the path of an entry for the call: the key-level children write their key value into the last element of the path they get from their parent (p.Elem[len-1].Key[name] = ...), so the elements must not be shared between calls. The returned path does not depend on an sdcpb.Path / PathElem kept in a field of the entry (a per-entry cache handed out as a shallow copy makes all instances of a list carry the keys of the one computed last).")
 	if f := w.Func("pkg/tree", "sharedEntryAttributes", "SdcpbPathInternal"); f != nil {
